@@ -339,8 +339,12 @@ class LinearPolynomial(BaseDeferred):
                 new_constant_term += key.constant_term * value
             elif isinstance(key, BaseDeferred):
                 # A promise that is settled with a not yet known value stays
-                # the variable (see Promise.get_current_best_estimate)
-                new_coeffs.append((variable if isinstance(variable, Promise) else key, value))
+                # the variable (see Promise.get_current_best_estimate), unless
+                # that value is another promise (an included file that starts
+                # where the including one does): then that one is the variable
+                if isinstance(variable, Promise) and not isinstance(key, Promise):
+                    key = variable
+                new_coeffs.append((key, value))
             else:
                 new_constant_term += key * value
 
